@@ -292,7 +292,7 @@ def _sh_tok3(tier):
 def _sh_tok4(tier):
     if tier == "quick":
         return product_pins(t0=[0, 2, 4, 6], t1=[0, 2, 3, 4, 5], gaps=[0])
-    return product_pins(t0=list(range(8)), t1=list(range(8)), gaps=[0, 7, 2, 5])
+    return product_pins(t0=list(range(8)), gaps=[0, 7, 2, 5])
 
 
 def _sh_wrapped(tier):
